@@ -1,6 +1,7 @@
 #include "evaluator/core/evaluator.h"
 #include "../../../../common/debug.h"
 #include "../../../../common/debug_messages.h"
+#include "../../../../common/stack_guard.h"
 #include "../../../../common/utf8_utils.h"
 #include "../../common/type_helpers.h"
 #include "../../core/error_handler.h"
@@ -76,6 +77,10 @@ ExpressionEvaluator::~ExpressionEvaluator() = default;
 // ============================================================================
 
 int64_t ExpressionEvaluator::evaluate_expression(const ASTNode *node) {
+    // evaluation recurses once per operand level (long operator chains are
+    // left-deep trees) and once per Cb call
+    StackGuard::check();
+
     // Phase 13: Expression Dispatcherへの完全委譲
     // 巨大なswitch文(322行)をExpressionDispatcherクラスに移動
     // これにより、expression_evaluator.cppが大幅に簡素化される
@@ -91,6 +96,7 @@ TypedValue ExpressionEvaluator::evaluate_typed_expression(const ASTNode *node) {
     if (!node) {
         return TypedValue(static_cast<int64_t>(0), InferredType());
     }
+    StackGuard::check();
 
     debug_msg(DebugMsgId::TYPED_EVAL_ENTRY, static_cast<int>(node->node_type));
 
